@@ -475,6 +475,23 @@ fn do_replay(world: &World, path: &str) -> i32 {
         return 2;
     }
     let want = v.get("check").and_then(|x| x.as_str()).unwrap_or("");
+    if v.pointer("/info/source").and_then(|x| x.as_str()) == Some("ubprobe") {
+        exec::LEAN.store(true, std::sync::atomic::Ordering::Relaxed);
+    }
+    if v.pointer("/info/concurrent").and_then(|x| x.as_bool()) == Some(true) {
+        println!("replaying {} with two threads executing the history at the same time", path);
+        return match exec_concurrently(world, &t, &f) {
+            Some(g) => {
+                println!("REPLAY-VIOLATION check={} record={} :: {}", g.check, g.rec, g.detail);
+                println!("VIOLATION property={} replay={}", PROPERTY, path);
+                1
+            }
+            None => {
+                println!("REPLAY-OK: the recorded history no longer violates {}", PROPERTY);
+                0
+            }
+        };
+    }
     let (got, evs, _) = shrink::exec_single(world, &t, &f, true);
     println!("replaying {} ({} records, {} serde ops, fault {:?})", path, t.records.len(), t.serde.len(), f);
     for (k, a, b) in evs.iter().take(200) {
@@ -518,6 +535,8 @@ struct Args {
     also: Vec<(String, String, u64)>,
     /// workspace directory in which to run the interpreter probe (`cargo +nightly miri run ... -- ubprobe`)
     miri_workspace: Option<String>,
+    /// same, but only used when a native violation fails to replay (quick tier)
+    miri_on_demand: Option<String>,
 }
 
 fn parse_args() -> Args {
@@ -542,6 +561,7 @@ fn parse_args() -> Args {
         codec_only: false,
         also: Vec::new(),
         miri_workspace: None,
+        miri_on_demand: None,
     };
     let mut it = std::env::args().skip(1);
     a.cmd = it.next().unwrap_or_default();
@@ -573,6 +593,7 @@ fn parse_args() -> Args {
             "--seam-audit" => a.seam_audit = Some(val()),
             "--variant" => a.variant = val(),
             "--miri-probe" => a.miri_workspace = Some(val()),
+            "--miri-on-demand" => a.miri_on_demand = Some(val()),
             "--codec-only" => a.codec_only = true,
             "--also" => {
                 let v = val();
@@ -726,9 +747,44 @@ fn cmd_ubprobe(world: &World, args: &Args) -> i32 {
             }
         }
     }
+    // concurrent phase: the first history of every family executed by two threads at the same time.
+    // The library owns no shared state, so this can only matter if a change introduces some (a static
+    // scratch buffer, a cache): the interpreter's data-race detector then reports it, and natively the two
+    // threads' oracles see each other's bytes.
+    let mut concurrent = 0u64;
+    for t in traces.iter().filter(|t| t.run % 4 == 0) {
+        let doc = json!({"property": PROPERTY, "check": "UB", "fault": {"kind": "none"}, "trace": t.to_json(&name),
+            "info": {"variant": args.variant, "source": "ubprobe", "concurrent": true, "note": "two threads execute this history at the same time"}});
+        let _ = std::fs::write(&cur, serde_json::to_string(&doc).unwrap());
+        println!("ubprobe-next history={} fault={{\"kind\":\"none\"}}", t.run);
+        let found = exec_concurrently(world, t, &Fault::None);
+        concurrent += 2;
+        if let Some(v) = found {
+            let doc = replay_json(world, t, &Fault::None, &v, json!({"variant": args.variant, "source": "ubprobe", "concurrent": true}));
+            let path = format!("{}/ubprobe-{}-{}-concurrent.json", args.replay_dir, t.run, v.check);
+            let _ = std::fs::write(&path, serde_json::to_string_pretty(&doc).unwrap());
+            println!("violation in ubprobe history {} (two threads): check {} record {} :: {}", t.run, v.check, v.rec, v.detail);
+            println!("VIOLATION property={} replay={}", PROPERTY, path);
+            return 1;
+        }
+    }
     let _ = std::fs::remove_file(&cur);
-    println!("UBPROBE-OK histories={} executions={} faults_fired={}", traces.len(), execs, fired);
+    println!("UBPROBE-OK histories={} executions={} faults_fired={} concurrent_executions={}", traces.len(), execs, fired, concurrent);
     0
+}
+
+/// Two threads execute the same (history, fault) pair at the same time; first violation wins.
+fn exec_concurrently(world: &World, t: &Trace, f: &Fault) -> Option<Violation> {
+    std::thread::scope(|sc| {
+        let hs: Vec<_> = (0..2).map(|_| sc.spawn(|| shrink::exec_single(world, t, f, false).0)).collect();
+        let mut found = None;
+        for h in hs {
+            if let Ok(Some(v)) = h.join() {
+                found.get_or_insert(v);
+            }
+        }
+        found
+    })
 }
 
 fn cmd_run(world: &World, args: &Args) -> i32 {
@@ -774,10 +830,8 @@ fn cmd_run(world: &World, args: &Args) -> i32 {
             }
         }
     }
-    if det_mismatch != 0 {
-        eprintln!("harness error: determinism self-test failed: {} of {} run digests differ between worker counts", det_mismatch, det_compared);
-        return 2;
-    }
+    // a mismatch is acted upon only after the search below: if the tree violates the property, the
+    // violation (found, minimised and reproduced in a fresh process) is the more useful answer
 
     let seed = args.seed;
     let mut batch = run_batch(world, &|r| generate(world, seed, r), runs, args.workers, args.tier, &known, false, cap);
@@ -819,6 +873,7 @@ fn cmd_run(world: &World, args: &Args) -> i32 {
     // violation handling: minimise, persist, re-execute in a fresh process
     let mut exit = 0;
     let mut violations = 0;
+    let mut unreproducible = false;
     let mut replay_path = String::new();
     if let Some((run, t, f, v)) = &batch.violation {
         violations = 1;
@@ -853,8 +908,13 @@ fn cmd_run(world: &World, args: &Args) -> i32 {
                 exit = 1;
             }
             _ => {
-                eprintln!("harness error: the minimised replay {} did not reproduce in a fresh process", replay_path);
-                return 2;
+                // Seen in one process, gone in the next: the outcome depends on something the simulator
+                // does not own (other worker threads running at the same time, or what ran earlier on the
+                // same thread). No native replay can be promised; escalate to the interpreter probe, whose
+                // two-thread phase turns a data race on hidden shared state into a reported event.
+                eprintln!("note: the minimised replay {} did not reproduce in a fresh process (hidden shared state in the code under test?)", replay_path);
+                unreproducible = true;
+                violations = 0;
             }
         }
     }
@@ -862,11 +922,23 @@ fn cmd_run(world: &World, args: &Args) -> i32 {
         println!("KNOWN-FINDING: property={} {} (seen {} times)", PROPERTY, what, n);
     }
 
+    if exit == 0 && det_mismatch != 0 && !unreproducible {
+        // the same (seed, run) produced different event logs under different worker counts / processes:
+        // some behaviour depends on what ran before on the same thread or on another thread, i.e. on state
+        // the simulator does not own (a static, thread-local or cached value inside the code under test
+        // would do that). Treated like a violation that does not replay: escalate to the interpreter probe.
+        eprintln!("note: determinism self-test failed: {} of {} run digests differ between worker counts / processes (hidden state outside the simulator's control? see the seam audit in the evidence)", det_mismatch, det_compared);
+        unreproducible = true;
+    }
+
     // the same check under the other build configurations of substrate-fixed (child processes, each
     // deterministic in (seed, histories)). A child's violation is this check's violation; event-digest
     // equality with this build is reported for information only (call granularity may legitimately differ).
     let mut variants_json = vec![json!({"variant": args.variant, "binary": std::env::current_exe().ok().map(|p| p.display().to_string()), "role": "this process"})];
     for (bin, name, n) in &args.also {
+        if unreproducible {
+            break; // no point multiplying a non-replayable outcome; go to the interpreter probe
+        }
         let evp = format!("{}.{}.json", args.evidence.clone().unwrap_or_else(|| "/verif/evidence/C10.json".into()).trim_end_matches(".json"), name);
         let out = std::process::Command::new(bin)
             .args(["run", "--tier", "quick", "--seed", &args.seed.to_string(), "--runs", &n.to_string(), "--workers", &args.workers.to_string(), "--variant", name, "--evidence", &evp, "--replay-dir", &args.replay_dir, "--known", &args.known])
@@ -920,8 +992,9 @@ fn cmd_run(world: &World, args: &Args) -> i32 {
 
     // interpreter probe: the PRNG-free `ubprobe` batch executed by Miri, which detects undefined
     // behaviour in the `unsafe` decode paths (derive-generated decode_into, codec's array/Box/Vec code)
-    let mut ub_probe = json!({"ran": false, "why": "only requested by the thorough tier"});
-    if let Some(ws) = &args.miri_workspace {
+    let mut ub_probe = json!({"ran": false, "why": "requested by the thorough tier, or on demand when a native violation does not replay"});
+    let probe_ws = args.miri_workspace.clone().or_else(|| if unreproducible { args.miri_on_demand.clone() } else { None });
+    if let Some(ws) = &probe_ws {
         let t1 = Instant::now();
         let out = std::process::Command::new("cargo")
             .current_dir(ws)
@@ -1048,6 +1121,7 @@ fn cmd_run(world: &World, args: &Args) -> i32 {
             "determinism": {"run_digests_compared": det_compared, "mismatches": det_mismatch, "worker_counts": [1, args.workers.max(2)], "fresh_process": fresh_process},
             "build_configurations": variants_json,
             "interpreter_probe": ub_probe,
+            "native_violation_that_did_not_replay": unreproducible,
             "components": {
                 "real_code": ["substrate-fixed derived Encode/Decode/MaxEncodedLen/TypeInfo for FixedI8..FixedU128 (incl. derive-generated decode_into)", "substrate-fixed from_bits/to_bits/{from,to}_{le,be,ne}_bytes (inherent and Fixed-trait)", "substrate-fixed Wrapping::{from_bits,to_bits}", "substrate-fixed serde Serialize/Deserialize impls (Fixed*, Wrapping)", "parity-scale-codec 3.7.5 integer/array/Vec/Option/tuple/Box codecs, Compact<u32> length prefix, EncodeAppend, DecodeLength, DecodeAll, DecodeLimit, Joiner, KeyedVec, IoReader", "std::io::Read::read_exact", "scale-info registry", "serde_json, serde_cbor"],
                 "stubs_owned_by_the_simulator": ["SimOutput (codec::Output)", "SimInput (codec::Input)", "SimRead (std::io::Read under IoReader)", "TokSer / TokDe (serde Serializer / Deserializer, SeqAccess, MapAccess)", "the medium (a byte vector)", "reference model: bits >> 8i little-endian bytes + shape framing", "metadata-driven foreign decoder", "hand-written LE reader"],
@@ -1071,6 +1145,8 @@ fn cmd_run(world: &World, args: &Args) -> i32 {
                 "S2": "g: deserialises from sequence and map presentations, own-width and widened integers",
                 "S3": "g + d: a serde stream cut short or failing gives Err",
                 "S4": "g: serde_json / serde_cbor identical to a derived { bits } struct, incl. every strict prefix of the text/bytes",
+                "S5": "g: an integer that does not fit the width is rejected whenever the derived { bits } struct rejects it (never accepted as a wrapped value)",
+                "D7": "c under depth limits: a successful decode leaves the input's nesting depth where it found it (descend_ref / ascend_ref balanced)",
                 "U1": "c, d (thorough tier): no undefined behaviour reported by Miri on the unsafe decode paths of the PRNG-free probe batch",
             },
             "known_findings_seen": st.known_hits,
@@ -1102,6 +1178,10 @@ fn cmd_run(world: &World, args: &Args) -> i32 {
         wall,
         (0..6).map(|i| format!("{}={}", FAULT_KINDS[i], st.fault_fired[i])).collect::<Vec<_>>().join(" ")
     );
+    if exit == 0 && unreproducible {
+        eprintln!("harness error: a native run misbehaved in a way that does not replay (see the notes above) and the interpreter probe did not pin it down; no verdict");
+        return 2;
+    }
     if exit == 0 {
         println!("c10sim: property {} held on everything explored", PROPERTY);
     }
